@@ -18,7 +18,7 @@ from ..repo import AnalysisError, attr_chain, norm, walk_no_nested
 from ..cfg import CFG, node_calls
 
 LEVEL = "other"
-TECHNIQUE = "CFG ordering / pairing queries and a branch partition over abstract data lengths on readChunk; reachability of the normalisation from every read-ahead without a re-evaluated last-character test"
+TECHNIQUE = "CFG ordering / pairing queries and a branch partition over abstract data lengths on readChunk; reachability of the normalisation from every read-ahead without a re-evaluated last-character test; source evaluation (sa/classeval.py) of DecodingReader and BufferedStream on byte sources that deliver short reads"
 CLAIM = ('Three necessary conditions of chunk-boundary independence in readChunk, over all paths: CR LF is '
          'normalised before lone CR; a withheld trailing character is removed from the data exactly when it is '
          'buffered and is cleared exactly when it is re-injected; every non-empty read evaluates the trailing- '
@@ -27,11 +27,11 @@ CLAIM = ('Three necessary conditions of chunk-boundary independence in readChunk
          'readChunk publishes as the chunk has passed the lone-CR replacement; the position of the chunk being '
          'replaced is accumulated from its old size on every path that replaces or resets it; charsUntil '
          "treats 'no match' as a stop only when the offset is not at the chunk end. BufferedStream records "
-         'every read; the decoder is the one of the resolved encoding object; reset() re-initialises every '
+         'every read, and run from its source on sources delivering short reads it returns at every read the bytes that follow its position (C05.18); the decoder is the one of the resolved encoding object; reset() re-initialises every '
          'attribute the reading methods write; unget() at a chunk start compensates the position counters '
          '(known finding: it does not).'
          ' A one-character read that is a CR / lead surrogate is extended by the next read; errors queued by the chunk-level character scan carry no position (known finding); the pre-scan buffer is completed across short reads. After every read-ahead that appends to the chunk the last-character test is evaluated again before the chunk is normalised. The decoding reader over a byte source returns \'\' only at the end of the input (run on sources that split a character across reads).')
-NOT_DECIDED = ('everything else: line/column arithmetic inside _position, BufferedStream replay, decoder behaviour, '
+NOT_DECIDED = ('everything else: line/column arithmetic inside _position, decoder behaviour, '
                'equality of trees and error lists for all segmentations.')
 MODULES = ["_inputstream.py"]
 REL = "_inputstream.py"
@@ -54,6 +54,7 @@ def run(ctx):
     unget_position(ctx)
     delivery_rules(ctx)
     reader_never_empty_midstream(ctx)
+    buffered_stream_replay(ctx)
     stream_error_positions(ctx)
     from .c06 import bom_read_and_seek
     bom_read_and_seek(ctx, "C05.13", "C05.14")
@@ -230,6 +231,35 @@ def chunk_invariants(ctx):
                     "%s stores chunk = %s but the size stored with it does not match" % (mn, v))
     if n < 3:
         raise AnalysisError("C05.4 matched %d stream methods" % n)
+    # whatever else readChunk derives from the published chunk (an index of its line feeds, a cached length ...) is part of the
+    # same invariant: a method that replaces the chunk by a different non-empty text (unget at a chunk start) stores it as well
+    rc = cls.methods.get("readChunk")
+    if rc is not None:
+        cfg = CFG(rc.node)
+        pub = [x for x in cfg.stmt_nodes() if x.kind == "stmt" and isinstance(x.ast, ast.Assign) and any(attr_chain(t) == ["self", "chunk"] for t in x.ast.targets)
+               and norm(x.ast.value) not in ("''", '""')]
+        derived = {}
+        for x in cfg.stmt_nodes():
+            if x.kind == "stmt" and isinstance(x.ast, ast.Assign) and len(x.ast.targets) == 1 and pub:
+                chn = attr_chain(x.ast.targets[0])
+                if chn and len(chn) == 2 and chn[0] == "self" and chn[1] not in ("chunk", "chunkSize", "chunkOffset") and \
+                        any(norm(y) in ("data", "self.chunk") for y in ast.walk(x.ast.value)) and not cfg.must_precede([x], lambda z: z in pub):
+                    derived[chn[1]] = x
+        for mn, m in cls.methods.items():
+            if mn == "readChunk":
+                continue
+            repl = [a for a in walk_no_nested(m.node) if isinstance(a, ast.Assign) and any(attr_chain(t) == ["self", "chunk"] for t in a.targets)
+                    and norm(a.value) not in ("''", '""')]
+            for d, st in sorted(derived.items()):
+                if not repl:
+                    continue
+                has = any(isinstance(a, (ast.Assign, ast.AugAssign)) and any(attr_chain(t) == ["self", d] for t in (a.targets if isinstance(a, ast.Assign) else [a.target]))
+                          for a in walk_no_nested(m.node)) or any(isinstance(c_, ast.Call) and attr_chain(c_.func) and attr_chain(c_.func)[:2] == ["self", d]
+                                                                   for c_ in walk_no_nested(m.node))
+                r.check("C05.4", has, "derived-state::%s::%s" % (mn, d), "%s:%d" % (REL, repl[0].lineno),
+                        "readChunk derives self.%s from the chunk it publishes (`%s`), but %s replaces the chunk (`%s`) without bringing self.%s "
+                        "up to date: after an unget() at a chunk start everything computed from it (line / column positions of later parse "
+                        "errors) is off" % (d, norm(st.ast)[:60], mn, norm(repl[0])[:40], d), {"method": mn, "attribute": d})
     ch = ctx.repo.func(REL, "HTMLUnicodeInputStream.char")
     src = " ".join(norm(ch.node).split())
     r.idiom("C05.5", "if self.chunkOffset >= self.chunkSize: if not self.readChunk(): return EOF" in src, "char-refill", ch.where,
@@ -323,6 +353,65 @@ def reader_never_empty_midstream(ctx):
                 "%s.read over the byte reads %r returns %r: an empty string before the source is exhausted is taken for the end of the input by "
                 "readChunk (the document is truncated at a character that a socket happened to split)" % (cls.name, pieces, outs),
                 {"reads": [repr(p_) for p_ in pieces]}, detail={"returned": outs})
+
+
+def buffered_stream_replay(ctx):
+    """C05.18: BufferedStream (put over non-seekable byte sources so that the encoding sniffers can seek back) must hand out, at
+    every read, exactly the bytes that follow its current position -- from its buffer while the position is inside what was read
+    before, from the source afterwards -- whatever the sizes in which the source delivered them.  The class is run from its
+    source (sa/classeval.py: __init__, read, seek and the helpers they call) on sources that deliver short reads, through
+    sequences of read / seek; every read must return a non-empty piece of the data starting at the position (empty only at the
+    end), and the position advances by what was returned."""
+    from ..classeval import ClassEval, Record
+    r = ctx.r
+    r.rule("C05.18", "BufferedStream.read returns the bytes that follow the position, for every split of the source into short reads", floor=3)
+    cls = next((c for c in ctx.repo.module(REL).all_classes if c.name == "BufferedStream"), None)
+    if cls is None or not {"__init__", "read", "seek"} <= set(cls.methods):
+        r.idiom("C05.18", False, "buffered-stream", REL, "BufferedStream with __init__ / read / seek not found")
+        return
+    f = cls.methods["read"]
+    ops = [("read", 2), ("read", 3), ("seek", 0), ("read", 1), ("read", 1), ("read", 4), ("seek", 1), ("read", 10), ("read", 10),
+           ("seek", 0), ("read", 2), ("read", 100), ("read", 5), ("read", 5)]
+    for label, pieces in (("bom-alone-then-rest", [b"\xef\xbb\xbf", b"<!DOCTYPE html>", b"<p>x"]), ("one-byte-reads", [b"a", b"b", b"c", b"d", b"e", b"f", b"g"]),
+                          ("one-piece", [b"abcdefghij"]), ("two-and-three", [b"ab", b"cde", b"f", b"ghij"])):
+        src = list(pieces)
+        whole = b"".join(pieces)
+
+        def sread(n=-1, src=src):
+            if not src:
+                return b""
+            head = src[0]
+            if n is None or n < 0 or n >= len(head):
+                return src.pop(0)
+            src[0] = head[n:]
+            return head[:n]
+        attrs = {}
+        key = "buffered-stream::%s" % label
+        problems = []
+        try:
+            ClassEval(ctx.ce, ctx.repo.module(REL), cls, attrs, repo=ctx.repo).call("__init__", [Record(read=sread)])
+            pos = 0
+            for op, arg in ops:
+                evl = ClassEval(ctx.ce, ctx.repo.module(REL), cls, attrs, repo=ctx.repo)
+                if op == "seek":
+                    evl.call("seek", [arg])
+                    pos = arg
+                    continue
+                got = evl.call("read", [arg])
+                if not isinstance(got, bytes):
+                    raise AnalysisError("read returned %r" % (got,))
+                want_any = whole[pos:pos + arg]
+                if not (len(got) <= arg and whole[pos:pos + len(got)] == got and (got or not want_any)):
+                    problems.append("read(%d) at position %d returns %r, the data there is %r" % (arg, pos, got, want_any))
+                    break
+                pos += len(got)
+        except (AnalysisError, TypeError, IndexError, AssertionError) as e:
+            r.idiom("C05.18", False, key, f.where, "BufferedStream is not evaluable on this sequence (%s: %s)" % (type(e).__name__, str(e)[:80]))
+            continue
+        r.check("C05.18", not problems, key, f.where,
+                "BufferedStream over a source that delivers %r: %s -- bytes are skipped or repeated when the sniffers have sought back and the "
+                "position stands at the end of a buffered chunk (a BOM that arrives as a read of its own: `<!DOCTYPE html>` loses its `<`)"
+                % (pieces, "; ".join(problems)), {"source": [repr(p_) for p_ in pieces]}, detail={"source": [repr(p_) for p_ in pieces]})
 
 
 def publish_rules(ctx):
@@ -577,6 +666,12 @@ def thorough(ctx):
 def mutants():
     from ..selftest import TextMutant as T
     return [
+        T("derived-line-count-not-kept-by-unget", REL, "        self.chunk = data\n        self.chunkSize = len(data)\n",
+          "        self.chunk = data\n        self.chunkSize = len(data)\n        self.chunkLineFeeds = data.count(\"\\n\")\n", "C05.4"),
+        T("buffer-replay-ignores-offset", REL, "                bytesToRead = len(bufferedData) - bufferOffset\n                self.position = [bufferIndex, len(bufferedData)]",
+          "                bytesToRead = len(bufferedData)\n                self.position = [bufferIndex, len(bufferedData)]", "C05.18"),
+        T("buffer-replay-only-inside-chunk", REL, "        else:\n            return self._readFromBuffer(bytes)\n",
+          "        elif self.position[1] < len(self.buffer[self.position[0]]):\n            return self._readFromBuffer(bytes)\n        return self._readStream(bytes)\n", "C05.18"),
         T("bom-single-read", "_inputstream.py", "        while len(string) < 4:\n            more = self.rawStream.read(4 - len(string))\n            if not more:\n                break\n            string += more\n", "", "C05.14"),
         T("bom-seek-constant", "_inputstream.py", "        encoding = None\n        seek = 0\n        for bom, name in bomDict.items():\n            if string.startswith(bom):\n                encoding = name\n                seek = len(bom)\n                break\n",
           "        encoding = bomDict.get(string[:3])\n        seek = 3\n        if not encoding:\n            encoding = bomDict.get(string[:2])\n            seek = 2\n", "C05.13"),
